@@ -482,7 +482,8 @@ func lexText(l *lexer) stateFn {
 				}
 			case '*':
 				maybeEmitText(l, 2)
-				if l.next() == '*' {
+				// "/**" begins a soydoc, except that "/**/" is an empty block comment
+				if l.next() == '*' && l.peek() != '/' {
 					return lexSoyDoc(l)
 				}
 				l.backup()
